@@ -132,6 +132,65 @@ def run(replay=None):
         for a in bad[:3]:
             ck.obligation_broken("correspondence C03: model and EncodeAddress differ", json.dumps(enc[a]))
         mism += len(bad)
+    # ---- dynamic: synthetic prologue shapes executed for real (one process each), then compiler-emitted functions
+    cnt_path = os.path.join(ck.wd, "dyn_count.jsonl")
+    rc, out = vlib.run_hx(hx, ["c03", "-extra", "dyn:count", "-out", cnt_path], timeout=60)
+    names = vlib.read_jsonl(cnt_path)[0]["names"] if rc == 0 else []
+    dyn_summary = {}
+    for k, nm in enumerate(names):
+        pth = os.path.join(ck.wd, "dyn_%d.jsonl" % k)
+        rc, out = vlib.run_hx(hx, ["c03", "-extra", "dyn:%d" % k, "-out", pth], timeout=60)
+        recs = [r for r in (vlib.read_jsonl(pth) if os.path.exists(pth) else []) if r.get("kind") == "dyn"]
+        if not recs:
+            built = os.path.exists(pth) and "built" in open(pth).read()
+            ck.impl_violation("crash:" + nm, "shape %s: the process crashed %s (exit %d)" % (nm, "while calling through the trampoline" if built else "during apply", rc),
+                              {"shape": nm, "k": k, "tail": out[-600:]})
+            dyn_summary[nm] = "crash"
+            continue
+        r = recs[0]
+        case = {x: r.get(x) for x in ("shape", "k", "code", "inputs", "expected", "via_origin", "mocked", "trampoline", "refused", "error", "panic", "changed", "changed_outside")}
+        if r["changed_outside"]:
+            ck.impl_violation("write-outside:" + nm, "shape %s: %d bytes changed outside the entry jump and the placeholder body" % (nm, r["changed_outside"]), case)
+        if r["refused"]:
+            dyn_summary[nm] = "refused"
+            if r["changed"]:
+                ck.impl_violation("refused-but-written:" + nm, "shape %s: the apply failed (%s) but %d bytes of the image changed" % (nm, r.get("error") or r.get("panic"), r["changed"]), case)
+            continue
+        good = r.get("via_origin") == r["expected"]
+        dyn_summary[nm] = "faithful" if good else "differs"
+        if any(m != -777 for m in r.get("mocked", [])):
+            ck.impl_violation("mock-not-reached:" + nm, "shape %s: calling the patched function does not reach the replacement" % nm, case)
+        if not good:
+            if r["expect"] == "known-reenter":
+                ck.impl_violation("reenter", "calling the origin placeholder re-enters the mock: shape %s (a branch of the original body targets the patched entry): expected %s, got %s" % (nm, r["expected"], r.get("via_origin")), case)
+            else:
+                ck.impl_violation("origin-differs:" + nm, "shape %s: calling the origin placeholder gives %s, the un-mocked function gave %s" % (nm, r.get("via_origin"), r["expected"]), case)
+    ck.notes["synthetic_shapes"] = dyn_summary
+    gp = os.path.join(ck.wd, "dyngo.jsonl")
+    rc, out = vlib.run_hx(hx, ["c03", "-extra", "dyn:go", "-tier", ck.tier, "-out", gp], timeout=1200)
+    grecs = vlib.read_jsonl(gp) if os.path.exists(gp) else []
+    if rc != 0:
+        last = [r for r in grecs if r.get("kind") == "dyn-progress"]
+        ck.impl_violation("crash:go:" + (last[-1]["target"] if last else "?"), "compiler-emitted targets: the process crashed (exit %d) after %s" % (rc, last[-1] if last else "start"),
+                          {"tail": out[-600:], "progress": last})
+    gsum = {}
+    for r in grecs:
+        if r.get("kind") == "dyngo":
+            gsum[r["target"]] = {x: r.get(x) for x in ("apply_panic", "bad_warm", "depths", "reenter_depths", "wrong_result_depths", "first_reenter_depth", "entry_branches_beyond_prefix")}
+            if r.get("apply_panic"):
+                continue
+            fb = r.get("first_bad_warm") or {}
+            if r["bad_warm"] and r.get("entry_branches_beyond_prefix") and fb.get("callbacks", 0) > 1:
+                ck.impl_violation("reenter", "calling the origin placeholder re-enters the mock: %s has a branch to its own (patched) entry beyond the copied prefix; %d of 23 warm-stack calls invoke the callback more than once (%s)" % (r["target"], r["bad_warm"], fb), r)
+            elif r["bad_warm"]:
+                ck.impl_violation("origin-wrong:" + r["target"], "%s mocked with a pass-through callback: %d of 23 calls on a warm stack give a wrong result or callback count: %s" % (r["target"], r["bad_warm"], r.get("first_bad_warm")), r)
+            if r["reenter_depths"] or r["wrong_result_depths"]:
+                ck.impl_violation("reenter", "calling the origin placeholder with little stack headroom re-enters the mock: %s at %d of %d stack depths (first at depth %s: %s callback invocations)" % (
+                    r["target"], r["reenter_depths"], r["depths"], r.get("first_reenter_depth"), r.get("first_reenter_callbacks")), r)
+        if r.get("kind") == "dyngo-reset" and r["bad"]:
+            ck.impl_violation("reset-after-origin", "after Reset %d calls of the formerly mocked functions differ from their twins" % r["bad"], r)
+    ck.notes["compiler_emitted_targets"] = gsum
+    ck.coverage["evaluations"] += len(names) * 10 + sum(v.get("depths") or 0 for v in gsum.values())
     ck.coverage["traces_validated_against_impl"] = evaluated
     ck.notes["model_mismatches"] = mism
     ck.coverage["rule"] = ("pure fixRelativeAddr on every function of the harness binary (bytes capped at 600) x 5 placeholder placements (+64K, -32K, near, +-2GiB-64K); "
